@@ -281,6 +281,47 @@ def judge(model):
     except Exception as e:     # noqa
         import traceback
         bad("api:exception:%s" % type(e).__name__, "exception while querying: %s" % traceback.format_exc()[-900:])
+    # ---- non-initial state: the reported model must still be the file's after the object has been analysed and decompiled
+    try:
+        from androguard.core.analysis.analysis import Analysis
+        from androguard.decompiler.decompile import DvClass
+        vm2 = dex.DEX(raw)
+        dx = Analysis(vm2)
+        dx.create_xref()
+        for c in vm2.get_classes():
+            try:
+                dc = DvClass(c, dx)
+                dc.process()
+                dc.get_source()
+            except Exception:      # noqa  (decompiler failures are not C05's subject)
+                pass
+        for pc, mc in zip(vm2.get_classes(), model.classes):
+            n = mc.name
+            want_m = sorted((n, m.name, descr(m.params, m.ret), m.access, None if m.code is None else bytes(m.code.insns))
+                            for m in mc.dmethods + mc.vmethods)
+            want_f = sorted((n, f.name, f.type, f.access) for f in mc.sfields + mc.ifields)
+            for api, ms in (("class.get_methods", pc.get_methods()),
+                            ("class_data.direct+virtual", (pc.get_class_data().get_direct_methods() + pc.get_class_data().get_virtual_methods()) if mc_has_data(mc) else []),
+                            ("vm.get_encoded_methods_class", vm2.get_encoded_methods_class(n))):
+                bad_type = [type(m).__name__ for m in ms if not isinstance(m, dex.EncodedMethod)]
+                if bad_type:
+                    bad("after-decompile:%s:object-type" % api, "%s: %s yields %s objects after the class was decompiled" % (n, api, sorted(set(bad_type))))
+                    continue
+                g = sorted((m.get_class_name(), m.get_name(), m.get_descriptor(), m.get_access_flags(),
+                            None if m.get_code() is None else bytes(m.get_code().get_bc().get_raw())) for m in ms)
+                if g != want_m:
+                    bad("after-decompile:%s" % api, "%s: %s after decompilation %r != model %r" % (n, api, g, want_m))
+            fs = pc.get_fields()
+            bad_type = [type(f).__name__ for f in fs if not isinstance(f, dex.EncodedField)]
+            if bad_type:
+                bad("after-decompile:class.get_fields:object-type", "%s: get_fields yields %s objects" % (n, sorted(set(bad_type))))
+            else:
+                g = sorted((f.get_class_name(), f.get_name(), f.get_descriptor(), f.get_access_flags()) for f in fs)
+                if g != want_f:
+                    bad("after-decompile:class.get_fields", "%s: get_fields after decompilation %r != model %r" % (n, g, want_f))
+    except Exception as e:     # noqa
+        import traceback
+        bad("after-decompile:exception:%s" % type(e).__name__, traceback.format_exc()[-900:])
     return out
 
 
